@@ -29,6 +29,18 @@ def _chars_of(x):
     return [s[i] for i in range(len(s))]
 
 
+def _bisect_value(v, lo, hi):
+    """the concrete value of the symbolic int v (known to lie in lo..hi): one path per value, found with
+    log2(hi - lo) solver decisions instead of a linear scan"""
+    while lo < hi:
+        mid = (lo + hi) // 2
+        if v <= mid:
+            hi = mid
+        else:
+            lo = mid + 1
+    return lo
+
+
 class DnsIO:
     """BytesIO stand-in for the DNS code: the buffer is a Python list of one-character strings, so its
     length and every position are concrete while the contents may be symbolic (nested slices of
@@ -55,12 +67,8 @@ class DnsIO:
             if n < 0:
                 n = rem
             else:
-                got = rem            # n > rem: short read (the caller sees fewer bytes than asked)
-                for k in range(rem + 1):
-                    if n == k:
-                        got = k
-                        break
-                n = got
+                # n > rem: short read (the caller sees fewer bytes than asked)
+                n = rem if n > rem else _bisect_value(n, 0, rem)
         elif n < 0 or n > rem:
             n = rem
         r = self.chars[self.pos:self.pos + n]
@@ -82,12 +90,8 @@ class DnsIO:
             if off < 0:
                 raise ValueError("negative seek value")
             if not lbytes._is_conc(off):
-                pos = n + 1              # beyond the end: every later read is empty, like the real one
-                for k in range(n + 1):
-                    if off == k:
-                        pos = k
-                        break
-                off = pos
+                # beyond the end: every later read is empty, like the real one
+                off = n + 1 if off > n else _bisect_value(off, 0, n)
             self.pos = off
         elif whence == 1:
             self.pos = max(0, self.pos + off)
@@ -592,7 +596,105 @@ def overlong(kind: int, i: int, dot: bool, comp: bool) -> bool:
     return out == [want] and end == HS + len(want) + 2
 
 
-BOUNDS = {"quick": {"lab": 2, "names": 2, "txt": 1}, "thorough": {"lab": 3, "names": 4, "txt": 2}}
+def _stream_io(parts):
+    """BytesIO of the current world over the concatenation of the text parts; concrete padding stays a
+    plain Python list of characters (no symbolic string of 16 K characters is ever built)"""
+    if L.__real__:
+        return L.BytesIO("".join(parts).encode("latin-1"))
+    chars = []
+    for p in parts:
+        if lbytes._is_conc(p):
+            chars.extend(p)
+        else:
+            chars.extend([p[i] for i in range(len(p))])
+    io = DnsIO()
+    io.chars = chars
+    return io
+
+
+SUF = "ex.org"
+SUF_WIRE = "\x02ex\x03org\x00"
+
+
+def _enc_with_known(name, known, o):
+    """Name(name).encode with a compression dict that already holds `known` at message offset o"""
+    cd = {} if L.__real__ else lbytes.SymDict()
+    cd[b(known)] = o
+    io = L.BytesIO()
+    L.Name(b(name)).encode(io, cd)
+    return t(io.getvalue())
+
+
+def ptr_bytes(o: int, l1: str, whole: bool) -> bool:
+    """
+    pre: 12 <= o <= 16383 and len(l1) == 2 and all(ord(c) < 256 and c != "." for c in l1)
+    post: _
+    """
+    # the name (or its suffix) was first written at ANY representable message offset o (14 bits)
+    name = l1 + "." + SUF
+    enc = _enc_with_known(name, name if whole else SUF, o)
+    api.obs(enc)
+    cover()
+    ptr = chr(192 + o // 256) + chr(o % 256)
+    if whole:
+        return enc == ptr
+    return enc == chr(len(l1)) + l1 + ptr
+
+
+OFFS = [12, 13, 255, 256, 1011, 1012, 1023, 1024, 1025, 2048, 4095, 4096, 8191, 8192, 16371, 16383]
+
+
+def ptr_decode(oi: int, l1: str, whole: bool) -> bool:
+    """
+    pre: 0 <= oi < 16 and len(l1) == 2 and all(ord(c) < 256 and c != "." for c in l1)
+    post: _
+    """
+    o = _pick(oi, OFFS)
+    name = l1 + "." + SUF
+    enc = _enc_with_known(name, name if whole else SUF, o)
+    api.obs((o, enc))
+    cover()
+    # a message in which the referenced name really sits at offset o (zero padding before it)
+    target = (chr(len(l1)) + l1 if whole else "") + SUF_WIRE
+    io = _stream_io(["\0" * o, target, enc])
+    start = o + len(target)
+    io.seek(start)
+    n = L.Name()
+    n.decode(io)
+    return t(n.name) == name and io.tell() == start + len(enc)
+
+
+NPADS = [3, 4, 5, 17, 70]
+
+
+def msg_big(npi: int, ttl: int, s1: str) -> bool:
+    """
+    pre: 0 <= npi < B['npads'] and 0 <= ttl < 2 ** 32 and len(s1) == 2 and all(ord(c) < 256 for c in s1)
+    post: _
+    """
+    # concrete padding records push a reused name beyond 1 KiB / 4 KiB / 16 KiB
+    npad = _pick(npi, NPADS)
+    m = L.Message(id=7, answer=1, maxSize=0)
+    for i in range(npad):
+        m.answers.append(L.RRHeader(b("p%d.pad.org" % i), L.TXT, 1, 5, L.Record_TXT(b("x" * 250), ttl=5)))
+    for k in range(2):
+        r = L.Record_A(ttl=ttl)
+        r.address = b(s1 + "\x00" + chr(k))
+        m.answers.append(L.RRHeader(b("late.example.net"), L.A, 1, ttl, r))
+    enc = m.toStr()
+    api.obs(len(enc))
+    cover()
+    d = L.Message()
+    d.fromStr(enc)
+    if len(d.answers) != npad + 2:
+        return False
+    for h, g in zip(m.answers[:npad], d.answers[:npad]):
+        if not _same_rr("TXT", h, g):
+            return False
+    return _same_rr("A", m.answers[npad], d.answers[npad]) and _same_rr("A", m.answers[npad + 1], d.answers[npad + 1])
+
+
+BOUNDS = {"quick": {"lab": 2, "names": 2, "txt": 1, "npads": 4}, "thorough": {"lab": 3, "names": 4, "txt": 2, "npads": 5}}
 B = {}
 ENCODED = ["twisted.names.dns:" + n for n in (
     "Name.encode", "Name.decode", "Query.encode", "Query.decode", "RRHeader.encode", "RRHeader.decode",
@@ -650,6 +752,9 @@ HARNESSES = [
     H(trunc, shards=lambda tier: [("nq == 1",)] if tier == "quick" else [("nq == 0",), ("nq == 1",)],
       timeout={"quick": 120, "thorough": 900}),
     H(overlong, shards=[("kind == 0",), ("kind == 1", "i < %d" % len(TOTALS))]),
+    H(ptr_bytes, shards=[("whole",), ("not whole",)]),
+    H(ptr_decode, shards=[("whole",), ("not whole",)], timeout={"quick": 90, "thorough": 600}),
+    H(msg_big, timeout={"quick": 120, "thorough": 900}),
 ]
 
 VECTORS = {
@@ -671,6 +776,9 @@ VECTORS = {
     "trunc": [(7, 12, 1, 300, 10, 1, "\x01\x02", "t"), (7, 40, 1, 300, 10, 1, "\x01\x02", "t"),
               (7, 64, 0, 300, 10, 1, "\x01\x02", "t"), (7, 95, 1, 300, 10, 1, "\x01\x02", "t"),
               (7, 4000, 1, 300, 10, 1, "\x01\x02", "t"), (9, 77, 1, 1, 2, 3, "ab", "c")],
+    "ptr_bytes": [(12, "ab", True), (1024, "ab", False), (16383, "\xff\x00", False), (4660, "zz", True)],
+    "ptr_decode": [(0, "ab", True), (7, "ab", False), (8, "ab", True), (15, "\xc0\x0c", False), (11, "q\x00", False)],
+    "msg_big": [(0, 300, "\x0a\x00"), (2, 4294967295, "ab"), (3, 1, "ab"), (4, 5, "\x01\x02")],
     "overlong": [(0, 3, False, True), (0, 5, False, False), (0, 6, False, True), (0, 14, False, True), (0, 17, False, False),
                  (1, 0, False, True), (1, 5, False, True), (1, 5, True, False), (1, 6, False, True), (1, 6, True, True),
                  (1, 15, False, False)],
